@@ -68,6 +68,8 @@ var authzKinds = []string{
 	"bearer-jwt-noiss",
 	// credentials of the expected scheme with white space inside of them: found, and not acceptable
 	"basic-wrongpw-inner-space", "bearer-opaque-inner-space",
+	// tokens which do not name the key they are signed with (every key of the set is tried then)
+	"bearer-jwt-nokid-valid", "bearer-jwt-nokid-otherkey", "bearer-jwt-nokid-expired", "bearer-jwt-nokid-wrongiss",
 }
 
 func mintJWT(kind string) string {
@@ -76,11 +78,11 @@ func mintJWT(kind string) string {
 	key := sigKey
 
 	switch kind {
-	case "bearer-jwt-expired":
+	case "bearer-jwt-expired", "bearer-jwt-nokid-expired":
 		claims["exp"] = now - 600
-	case "bearer-jwt-wrongiss":
+	case "bearer-jwt-wrongiss", "bearer-jwt-nokid-wrongiss":
 		claims["iss"] = "https://evil.example.com"
-	case "bearer-jwt-otherkey":
+	case "bearer-jwt-otherkey", "bearer-jwt-nokid-otherkey":
 		key = otherKey
 	case "bearer-jwt-noiss":
 		delete(claims, "iss")
@@ -98,6 +100,10 @@ func mintJWT(kind string) string {
 		header["alg"], signWith = "HS512", []byte("0123456789abcdef0123456789abcdef0123456789abcdef0123456789abcdef")
 	case "bearer-jwt-unknown-kid":
 		header["kid"] = "nobody"
+	}
+
+	if strings.HasPrefix(kind, "bearer-jwt-nokid-") {
+		delete(header, "kid")
 	}
 
 	tok, err := vkit.MintJWT(header, claims, signWith)
@@ -180,12 +186,12 @@ func classify(a authn, c creds) class {
 		case !strings.HasPrefix(c.Authz, "bearer-jwt-"):
 			// no bearer token at all, or a bearer token which is not in JWT format: not this authenticator's credential
 			return class{"none", ""}
-		case a.Type == "jwt_meta" && (c.Authz == "bearer-jwt-noiss" || c.Authz == "bearer-jwt-wrongiss"):
+		case a.Type == "jwt_meta" && (c.Authz == "bearer-jwt-noiss" || c.Authz == "bearer-jwt-wrongiss" || c.Authz == "bearer-jwt-nokid-wrongiss"):
 			// the token is there, but there is nobody to ask for the keys of its issuer
 			return class{"rejected", ""}
 		case c.JWKS == "fail":
 			return class{"remotefail", ""}
-		case c.Authz == "bearer-jwt-valid":
+		case c.Authz == "bearer-jwt-valid", c.Authz == "bearer-jwt-nokid-valid":
 			return class{"valid", "jwt-user"}
 		default:
 			return class{"rejected", ""}
@@ -194,13 +200,13 @@ func classify(a authn, c creds) class {
 		switch {
 		case !strings.HasPrefix(c.Authz, "bearer-"):
 			return class{"none", ""}
-		case a.Type == "introspection_meta" && (!strings.HasPrefix(c.Authz, "bearer-jwt-") || c.Authz == "bearer-jwt-noiss" || c.Authz == "bearer-jwt-wrongiss"):
+		case a.Type == "introspection_meta" && (!strings.HasPrefix(c.Authz, "bearer-jwt-") || c.Authz == "bearer-jwt-noiss" || c.Authz == "bearer-jwt-wrongiss" || c.Authz == "bearer-jwt-nokid-wrongiss"):
 			// a token is there, but it does not tell its issuer (opaque, not a JWT), or nothing is known about that issuer:
 			// there is nobody to ask about it
 			return class{"rejected", ""}
 		case c.Authz == "bearer-opaque-valid":
 			return class{"valid", "opaque-user"}
-		case c.Authz == "bearer-jwt-valid", c.Authz == "bearer-jwt-unknown-kid":
+		case c.Authz == "bearer-jwt-valid", c.Authz == "bearer-jwt-unknown-kid", c.Authz == "bearer-jwt-nokid-valid":
 			// (the scripted introspection endpoint verifies the signature with its key and does not look at the kid)
 			return class{"valid", "jwt-user"}
 		case c.Authz == "bearer-opaque-remotefail":
